@@ -49,10 +49,16 @@ def ini_parse(text):
     return {s: dict(cp.items(s)) for s in cp.sections()}
 
 
-def build(obj, conc):
+def build(obj, conc, foreign_owner=False):
+    """foreign_owner: the Variant objects are constructed against ANOTHER TreeInfo (of the other arch kind) and then
+    added to this one - e.g. compose variants built once and reused for the binary and the source tree."""
     from productmd.treeinfo import TreeInfo, Variant
     sec = obj["sec"]
     t = TreeInfo()
+    owner = t
+    if foreign_owner:
+        owner = TreeInfo()
+        owner.tree.arch = "src" if sec["arch"] == "bin" else conc.binarch
     tx = conc.text
     t.release.name, t.release.short, t.release.version = tx["relname"], tx["relshort"], tx["relver"]
     if sec["layered"]:
@@ -66,7 +72,7 @@ def build(obj, conc):
     t.tree.platforms = set(pl[p] for p in sec["plats"]) | (set([arch]) if sec["imgs"] != "none" else set())
 
     def mk(u, vtype):
-        v = Variant(t)
+        v = Variant(owner)
         v.id, v.uid, v.name, v.type = conc.vid(u), conc.uid(u), tx["vname"] % conc.uid(u), vtype
         return v
     for u in sorted(obj["tops"]):
@@ -246,7 +252,7 @@ def evaluate(case):
                                 conc.rot, " pct" if case.get("pct") else "")
     mv = main_arg(obj, conc)
     try:
-        t = build(obj, conc)
+        t = build(obj, conc, foreign_owner=bool(case.get("foreign_owner")))
         f = io.StringIO()
         t.dump(f, main_variant=mv)
         text = f.getvalue()
